@@ -13,6 +13,11 @@
  *   03 <flag ifaces> <entry>...           flag(1): 1 = getifaddrs() fails; ifaces = 17 bytes each: tag(1) addr(16),
  *                                         tag 4 = AF_INET (last 4 bytes used), 6 = AF_INET6, 0 = ifa_addr NULL, else other family
  *                                         filter_my_ips(list)           ->  OK <entry>...
+ *   04 <remhost> <dns> <flags routes> <file>...   smtproute(remhost) in a scratch control directory:
+ *                                         dns = [namelen][name][count][count*16]... (names ask_dnsaaaa resolves);
+ *                                         flags(1): bit 0 control/smtproutes exists (content follows), bit 1 control/smtproutes.d exists;
+ *                                         file = [namelen][name][content]
+ *                                         ->  FATAL (err_confn)  |  ROUTE <port> NONE  |  ROUTE <port> <addresses>
  *   05 <params> <oracle> <flag ifaces> <entry>...   the sequence of qremote.c:main():
  *                                         if (port == 25) filter_my_ips; sortmx; ncalls times tryconn
  *                                         ->  ALLME  |  P <entry after filtering>... S <entry after sorting>... then the output of 02
@@ -27,6 +32,7 @@
 #include <net/if.h>
 #include <syslog.h>
 #include <stdbool.h>
+#include <sys/stat.h>
 
 static int h_socket(int d, int t, int p);
 static int h_bind(int fd, const struct sockaddr *a, socklen_t l);
@@ -41,6 +47,11 @@ static void h_freeifaddrs(struct ifaddrs *p);
 #include "lib/dns_helpers.c"
 #include "lib/ipme.c"
 #include "qremote/conn.c"
+#include "qremote/smtproutes.c"
+#include "lib/control.c"
+#include "lib/match.c"
+#include "lib/fmt.c"
+#include "lib/mmap.c"
 #undef socket
 #undef bind
 #undef connect
@@ -56,7 +67,44 @@ void log_writen(int p, const char **s) { (void)p; (void)s; }
 void log_write(int p, const char *s) { (void)p; (void)s; }
 void net_conn_shutdown(const enum conn_shutdown_type t) { (void)t; longjmp(h_die, 2); }
 int ask_dnsmx(const char *n, struct ips **r) { (void)n; (void)r; return 1; }
-struct ips *smtproute(const char *a, const size_t b, unsigned int *c) { (void)a; (void)b; (void)c; errno = 0; return NULL; }
+void err_confn(const char **m, void *freebuf) { (void)m; free(freebuf); longjmp(h_die, 3); }
+void err_conf(const char *m) { (void)m; longjmp(h_die, 3); }
+const char *clientcertname = "control/clientcert.pem";
+const char *clientkeyname = "control/clientcert.pem";
+struct in6_addr outgoingip, outgoingip6;
+
+/* ask_dnsaaaa() answers from the table of the case: [namelen][name][count][count * 16 octets]... */
+static const unsigned char *d_tab; static size_t d_len;
+int ask_dnsaaaa(const char *name, struct in6_addr **res)
+{
+	size_t nl = strlen(name), o = 0;
+	*res = NULL;
+	while (o < d_len) {
+		size_t l = d_tab[o], c = d_tab[o + 1 + l];
+		if (l == nl && memcmp(d_tab + o + 1, name, nl) == 0) {
+			if (c == 0) return 0;
+			*res = malloc(c * 16);
+			memcpy(*res, d_tab + o + 2 + l, c * 16);
+			return c;
+		}
+		o += 2 + l + 16 * c;
+	}
+	errno = ENOENT;
+	return DNS_ERROR_PERM;
+}
+static int dns_table_ok(const struct field *f)
+{
+	size_t o = 0;
+	while (o < f->len) {
+		size_t l = f->p[o];
+		if (o + 1 + l >= f->len) return 0;
+		size_t c = f->p[o + 1 + l];
+		if (o + 2 + l + 16 * c > f->len) return 0;
+		if (memchr(f->p + o + 1, 0, l)) return 0;
+		o += 2 + l + 16 * c;
+	}
+	return 1;
+}
 
 static int rh_called; static unsigned rh_id; static unsigned rh_idx;
 void getrhost(const struct ips *m, const unsigned short idx)
@@ -228,6 +276,91 @@ static void run_tryconn(struct ips *l, const struct field *par, const struct fie
 	if (!any) out_str("-");
 }
 
+/* ---- smtproute(): a real control directory under /tmp ---- */
+static int name_ok(const unsigned char *n, size_t l, int may_be_empty)
+{
+	if (l == 0) return may_be_empty;
+	if (memchr(n, '/', l) || memchr(n, 0, l)) return 0;
+	if ((l == 1 && n[0] == '.') || (l == 2 && n[0] == '.' && n[1] == '.')) return 0;
+	return 1;
+}
+static int content_ok(const unsigned char *c, size_t l)
+{
+	for (size_t i = 0; i < l; i++)
+		if (c[i] == 0 || c[i] == ' ' || c[i] == '\t' || c[i] == '#' || c[i] == '\\' || c[i] == '\r') return 0;
+	return 1;
+}
+static int write_file(int dfd, const char *name, const unsigned char *c, size_t l)
+{
+	int fd = openat(dfd, name, O_WRONLY | O_CREAT | O_EXCL, 0600);
+	if (fd < 0) return -1;
+	if (l && write(fd, c, l) != (ssize_t)l) { close(fd); return -1; }
+	close(fd);
+	return 0;
+}
+static void run_route(int nf, struct field *f)
+{
+	/* 04 <remhost> <dns> <flags routes> <file>... */
+	if (nf < 4 || f[3].len < 1 || !name_ok(f[1].p, f[1].len, 1) || !dns_table_ok(&f[2]) || !content_ok(f[3].p + 1, f[3].len - 1)) { out_str("BADCASE"); return; }
+	for (int i = 4; i < nf; i++) {
+		if (f[i].len < 1 || f[i].len < 1u + f[i].p[0] || !name_ok(f[i].p + 1, f[i].p[0], 0)
+				|| !content_ok(f[i].p + 1 + f[i].p[0], f[i].len - 1 - f[i].p[0])) { out_str("BADCASE"); return; }
+		for (int j = 4; j < i; j++)
+			if (f[j].p[0] == f[i].p[0] && memcmp(f[j].p + 1, f[i].p + 1, f[i].p[0]) == 0) { out_str("BADCASE"); return; }
+	}
+	char base[64];
+	snprintf(base, sizeof(base), "/tmp/mxh.%d", (int)getpid());
+	mkdir(base, 0700);
+	int cfd = open(base, O_RDONLY | O_DIRECTORY);
+	if (cfd < 0) { out_str("HARNESS-ERROR"); return; }
+	int haveroutes = f[3].p[0] & 1, havedir = f[3].p[0] & 2;
+	int bad = 0;
+	if (haveroutes) bad |= write_file(cfd, "smtproutes", f[3].p + 1, f[3].len - 1);
+	int dfd = -1;
+	if (havedir) {
+		mkdirat(cfd, "smtproutes.d", 0700);
+		dfd = openat(cfd, "smtproutes.d", O_RDONLY | O_DIRECTORY);
+		for (int i = 4; i < nf && dfd >= 0; i++) {
+			char nm[300];
+			memcpy(nm, f[i].p + 1, f[i].p[0]); nm[f[i].p[0]] = 0;
+			bad |= write_file(dfd, nm, f[i].p + 1 + f[i].p[0], f[i].len - 1 - f[i].p[0]);
+		}
+	}
+	d_tab = f[2].p; d_len = f[2].len;
+	controldir_fd = cfd;
+	if (bad) out_str("HARNESS-ERROR");
+	else {
+		char *rh = malloc(f[1].len + 1);		/* exact size */
+		memcpy(rh, f[1].p, f[1].len); rh[f[1].len] = 0;
+		unsigned int port = 4711;
+		int j = setjmp(h_die);
+		if (j == 0) {
+			struct ips *mx = smtproute(rh, f[1].len, &port);
+			out_str("ROUTE ");
+			out_int(port);
+			if (mx == NULL) out_str(errno == 0 ? " NONE" : " NONE-ERRNO");
+			else {
+				if (mx->next != NULL || mx->priority != 0) out_str(" ODD");
+				out_str(" "); out_hex(mx->addr, 16 * (size_t)mx->count);
+			}
+		} else out_str(j == 3 ? "FATAL" : "DIED");
+		free_smtproute_vals();
+		free(rh);
+	}
+	/* clean up */
+	if (dfd >= 0) {
+		for (int i = 4; i < nf; i++) {
+			char nm[300];
+			memcpy(nm, f[i].p + 1, f[i].p[0]); nm[f[i].p[0]] = 0;
+			unlinkat(dfd, nm, 0);
+		}
+	}
+	unlinkat(cfd, "smtproutes.d", AT_REMOVEDIR);
+	unlinkat(cfd, "smtproutes", 0);
+	rmdir(base);
+	for (int fd = 3; fd < 64; fd++) close(fd);	/* err_confn() leaves descriptors open (the real one exits) */
+}
+
 static void run_case(int nf, struct field *f)
 {
 	if (nf < 1 || f[0].len != 1) { out_str("BADCASE"); return; }
@@ -266,6 +399,8 @@ static void run_case(int nf, struct field *f)
 		out_str(" S"); for (struct ips *e = l; e; e = e->next) out_entry(e);
 		out_str(" ");
 		run_tryconn(l, &f[1], &f[2]);
+	} else if (op == 0x04) {
+		run_route(nf, f);
 	} else out_str("BADCASE");
 }
 
